@@ -26,11 +26,14 @@ TRUSTED = ["fractions.Fraction"]
 def _sub(ctx, fn, rule, only=None):
     sub = type(ctx)(ctx.prog, ctx.prop, ctx.tier)
     sub.cur_rule = rule
-    fn(sub)
-    for o in sub.obs:
-        if only is None or only(o):
-            o.rule = rule
-            ctx.obs.append(o)
+    try:
+        fn(sub)
+    finally:
+        # verdicts reached before an anchor went missing still count
+        for o in sub.obs:
+            if only is None or only(o):
+                o.rule = rule
+                ctx.obs.append(o)
 
 
 def r1_r3_validation(ctx):
